@@ -100,7 +100,7 @@ def correspondence(ctx, model_ok=True):
     rng = ctx.rng.fork("c11")
     failures = []
     broken = []
-    n_cases = 1200 if ctx.thorough else 80
+    n_cases = 1200 if ctx.thorough else 700
     profiles = ["full", "lowbits", "wrap", "few", "random", "special"]
     seqs = []
     for i in range(n_cases):
@@ -234,7 +234,7 @@ def correspondence(ctx, model_ok=True):
 
     # (c) in-language routes
     progs = []
-    n_c = 1800 if ctx.thorough else 120
+    n_c = 1800 if ctx.thorough else 1000
     for i in range(n_c):
         progs.append(route_program_chars(rng.fork("h%d" % i)) if i % 4 == 1 else (route_program(rng.fork("c%d" % i)) if i % 3 else route_program_values(rng.fork("v%d" % i))))
     c_lines = [vlib.case_line("c%d" % i, ["S:" + vlib.hx(p)], steps=2000000) for i, p in enumerate(progs)]
